@@ -316,56 +316,56 @@ PROPS = {
 
 # Additions made while the checks were widened against seeded changes (rounds
 # 3-7, DESIGN 12.4); appended to the rule texts above.
-SCHEMA_HISTORY = (" Generated schemas: names over a tiny alphabet (ASCII letters/digits/-/_ plus a letter and a symbol above U+007F) with forced "
+SCHEMA_HISTORY = (" Generated schemas: names over a tiny alphabet (ASCII letters/digits incl. 0/-/_/blank plus a letter and a symbol above U+007F) with forced "
                   "prefixes, extensions, case variants and concatenation twins (a.x_n / a_x.n); one soft type in four is derived from another used type "
                   "(New, Copy, rename, add a field); one schema in four is built through a longer edit history (a throw-away type added and removed), "
                   "one in six has its types taken out and put back in order, the schema being really used (lookups, Check, Rels, URL parsing, "
-                  "full and partial unmarshaling) while the order is not the final one; struct-backed types declare their ID field anywhere.")
+                  "full and partial unmarshaling) while the order is not the final one; struct-backed types declare their ID field anywhere, take it from an embedded struct, or give it a defined string type; to-many values may hold an empty ID; incoherent schemas may have 15-26 types and dangling targets that nearly match a type name.")
 EXTRA_RULE = {
     "C01": SCHEMA_HISTORY + " One soft resource in five has a field (attribute or relationship) that replaced a placeholder in its type after the "
-           "values were set (reads as zero). Times include landmark instants (zero time in UTC and +05:30, Unix epoch, year 9999).",
+           "values were set (reads as zero). Times include landmark instants (zero time in UTC and +05:30, Unix epoch, year 9999). One case in five marshals the resource as a collection member, marshals other collections, then reads the first payload; every pointer and slice of what came back is overwritten afterwards.",
     "C02": SCHEMA_HISTORY + " Members may be soft resources on a trimmed type of the same name, or soft resources / soft collections whose type was edited "
            "after the values were set; one list in 25 has 30-70 members; meta strings that look like timestamps, numbers, booleans, base64; URL with any "
-           "subset of size/number/custom page parameters and a filter label or and/or tree.",
+           "subset of size/number/custom page parameters and a filter label or and/or tree; error statuses include real HTTP codes.",
     "C03": SCHEMA_HISTORY + " 0-10 Include calls (one case in six: 11-48), a marshal may come between Include calls, Document.Resources nil / empty / "
            "unrelated, prefixes containing %, lists of 30-70 members now and then.",
-    "C04": SCHEMA_HISTORY + " Documents as in C02 (trimmed soft members of the same type name, large lists, URL filters and page parameters).",
+    "C04": SCHEMA_HISTORY + " Documents as in C02 (trimmed soft members of the same type name, large lists, URL filters and page parameters); each document is marshaled three times with the same URL, the last time with a widened selection.",
     "C05": SCHEMA_HISTORY + " Mutated documents include lists of 30-70 members; mutations include editing a string in place (character dropped, "
-           "prefix, suffix, doubled, emptied).",
+           "prefix, suffix, doubled, emptied); request targets are path-escaped.",
     "C06": SCHEMA_HISTORY + " One payload case in four is preceded by another request for the same type (accepted, or refused because its id is a number); "
            "one in four runs as the second member of a collection (UnmarshalCollection) whose first member is of any type; a bytes attribute must "
-           "re-marshal as a JSON string.",
+           "re-marshal as a JSON string; payloads with an unknown or missing type, ill meta/links members, empty or missing IDs in to-many lists.",
     "C07": SCHEMA_HISTORY + " Sort rules with several leading dashes and other decorations (up to 12 rules), fields lists naming fields of other types, "
-           "filter labels in any JSON escape style.",
+           "filter labels in any JSON escape style; two names differing by one leading character are sorted on longer first.",
     "C08": SCHEMA_HISTORY + " Empty filter= / sort= / include= / fields[t]= among the accepted parameters; filter labels in any JSON escape style incl. "
            "whitespace + '{'; collations on combining filter nodes; filter trees compared member by member. The recorded finding fields-param-truncated is "
-           "excused only when the text is read exactly like the same text without the truncated parameter.",
+           "excused only when the text is read exactly like the same text without the truncated parameter. One case in twenty first prints a URL on which the pinned String panics (recovered).",
     "C09": " Attribute names with dashes, underscores, non-ASCII letters and 'id' inside; one ID list, filter and rules slice per case handed to every "
-           "Range call; every page returned during a case is read again at the end, after two unrelated Range calls on the same collection.",
+           "Range call; every page returned during a case is read again at the end, after two unrelated Range calls on the same collection; collections of up to 70 members, an empty ID, instants far apart, byte strings of different lengths.",
     "C10": " One built filter is evaluated, some of its leaf values are replaced (in place for lists of equal length) and it is evaluated again; leaf "
            "filters whose value is the one read from the resource itself (same pointer / slice); filters that use one sub-filter object at several "
-           "places; unknown operators that look like known ones (==, !==, <==, =<, <>, '', IN, Has).",
+           "places; unknown operators that look like known ones (==, !==, <==, =<, <>, '', IN, Has); wide (60-140 groups) and deep (60-140 levels) trees around a generated one; a soft resource nobody has read yet.",
     "C11": SCHEMA_HISTORY + " Documents as in C02; included IDs chosen so that type+ID (either order) coincide with an earlier included resource when the "
            "type names allow it; after the repeated marshals the lists of the same document and URL objects are permuted in place and marshaled again; "
            "the observable state includes page parameters, filter label and filter tree as they read.",
     "C12": SCHEMA_HISTORY + " Further operation: New() on schema.Types[i] itself. At most one relationship with an empty FromType. Unmarshal results are "
-           "kept and re-read when a goroutine's list is done; a result's resource-level meta must be empty or the request's own.",
+           "kept and re-read when a goroutine's list is done; a result's resource-level meta must be empty or the request's own. Operations marshal-softcol and roundtrip-document; large schemas of 8-22 types with dangling relationships; a run that does not finish in 60 s is a violation (deadlock) with its history printed.",
     "C13": SCHEMA_HISTORY + " Trailing text after the resource object; to-many lists of the partial and the full result compared in order; unknown "
-           "relationships without data; names placed under the wrong member (a relationship among the attributes, an attribute among the relationships).",
+           "relationships without data; names placed under the wrong member (a relationship among the attributes, an attribute among the relationships); unknown or missing type with or without fields.",
     "C14": " Names include a_b / a-b types, non-ASCII names, two-way relationships whose ends concatenate to the same string, invalid kinds next to the "
            "valid range and extreme integers; a failed edit is also compared with a snapshot that tells nil maps from empty ones; lookups are made after "
-           "two edits in three only.",
+           "two edits in three only; type names differing by case only.",
     "C15": " One schema in four is built through a throw-away type, one in six has its types taken out and put back after a few lookups.",
     "C16": " The inverse is also computed independently (both halves swapped); relationships with the same type and name on both ends are included. "
            "Schemas are built a third way: types first, then one relationship or pair at a time through AddRel / AddTwoWayRel in any order, with or "
            "without a Rels() query between edits. Concatenation twins in generated schemas.",
     "C17": " Actions also include Equal/EqualStrict calls between Set and Get, Set(bytes, []byte(nil)), attributes whose names differ only by letter "
-           "case; equality pairs include to-many lists that print alike.",
+           "case; equality pairs include to-many lists that print alike, null against a pointer to the zero value, one empty ID; struct types with a defined string type as ID.",
     "C18": " Slices with spare capacity at copy time and append-through-Get operations on both sides; Type.Copy of soft and struct-backed types, "
-           "possibly used (New) before the copy, with New on either side afterwards.",
+           "possibly used (New) before the copy, with New on either side afterwards; Fields() and the content of the type compared.",
     "C19": " Kinds include nullable bytes/time/bool; IDs include the empty ID; SetType may retarget a kept relationship; members are read after two "
-           "operations in three only (what a stored resource exposes must not depend on reads in between).",
-    "C20": " Tags rel,,inv and rel,,; json names differing only by case; after everything else the built type is edited and BuildType is called again.",
+           "operations in three only (what a stored resource exposes must not depend on reads in between); one history in four adds 10-45 members at once and may remove many; several members may share one *Type.",
+    "C20": " Tags rel,,inv and rel,,; json names differing only by case; after everything else the built type is edited and BuildType is called again; interface-typed fields, embedded structs with tagged fields, now and then 65-68 fields.",
 }
 
 for _pid, _extra in EXTRA_RULE.items():
